@@ -556,3 +556,111 @@ def h_allocation_for(homeless: int, p0: int, p1: int, p2: int) -> bool:
     hm = M.pick(list(range(2 ** N)), homeless)
     place = [M.pick([0, 1, 2], p0), M.pick([0, 1, 2], p1), M.pick([0, 1, 2], p2)]
     return M.run_concrete(_allocation_for_check, N, hm, place)
+
+
+# ---- CHKUploader._encrypted_done: what the upload REPORTS as placed -------------------------------
+
+hlib.encoded(upload.CHKUploader._encrypted_done, upload.UploadResults)
+
+
+class _DoneEncoder(object):
+    """what _encrypted_done reads from the Encoder after the push"""
+    file_size = 1000
+
+    def __init__(self, placed):
+        self._placed = set(placed)
+        self.given = None
+
+    def set_shareholders(self, landlords, servermap):
+        self.given = (dict(landlords), servermap)
+
+    def get_shares_placed(self):
+        return set(self._placed)
+
+    def get_times(self):
+        return {"cumulative_encoding": 0.0}
+
+    def get_uri_extension_data(self):
+        return {"size": 1000}
+
+    def get_uri_extension_hash(self):
+        return b"h" * 32
+
+
+class _Status(object):
+    results = None
+
+    def set_results(self, ur):
+        self.results = ur
+
+
+def _done_check(owner, placed, already):
+    """owner[s]: 0 = no bucket was allocated for share s, t+1 = tracker t got one; placed: shares whose writer survived the
+    push (subset of the allocated ones; a writer that failed was removed by _remove_shareholder, tolerated while happy);
+    already[s]: share s was also found pre-existing on some other server."""
+    N = len(owner)
+    NT = int(B.get("NT", 3))
+    servers = [_Srv(LABEL[t], [], "ok", False) for t in range(NT)]
+    trackers = []
+    for t in range(NT):
+        tr = upload.ServerTracker(servers[t], 100, 10, 1, 1, b"s" * 16, b"r", b"c", 50)
+        for s in range(N):
+            if owner[s] == t + 1:
+                b = _Bucket(servers[t], s)
+                servers[t].open[s] = b
+                tr.buckets[s] = tr.wbp_class(b, servers[t], tr.sharesize, tr.blocksize, tr.num_segments, tr.num_share_hashes, 50)
+        if tr.buckets:
+            trackers.append(tr)
+    already_ids = dict((s, set([LABEL[NT]])) for s in range(N) if already[s])
+    up = upload.CHKUploader.__new__(upload.CHKUploader)
+    up.log = lambda *a, **k: 0
+    enc = _DoneEncoder(placed)
+    up._encoder = enc
+    up._started = 0.0
+    up._storage_index_elapsed = 0.0
+    up._server_selection_elapsed = 0.0
+    up._upload_status = _Status()
+    upload.CHKUploader.set_shareholders(up, set(trackers), already_ids, enc)     # real bookkeeping before the push
+    ur = upload.CHKUploader._encrypted_done(up, hlib.NS(to_string=lambda: b"URI:CHK-Verifier:x"))
+    if up._upload_status.results is not ur:
+        return "results not recorded in the upload status"
+    want = set((s, LABEL[owner[s] - 1]) for s in placed)
+    sharemap = ur.get_sharemap()
+    servermap = ur.get_servermap()
+    got_sm = set((s, srv.get_serverid()) for s, srvs in sharemap.items() for srv in srvs)
+    got_vm = set((s, srv.get_serverid()) for srv, shs in servermap.items() for s in shs)
+    for (s, sid) in sorted(got_sm | got_vm):
+        if (s, sid) not in want:
+            if owner[s] and LABEL[owner[s] - 1] == sid:
+                return ("share %d is reported as placed on server %d, but its writer failed during the push and was removed "
+                        "(the share is not complete/readable there)" % (s, sid))
+            return "share %d reported on server %d, which never held a bucket for it" % (s, sid)
+    if got_sm != want:
+        return "sharemap %r is not exactly the shares whose writers completed %r" % (sorted(got_sm), sorted(want))
+    if got_vm != want:
+        return "servermap %r is not the inverse of the sharemap %r" % (sorted(got_vm), sorted(want))
+    if any(not v for v in sharemap.values()) or any(not v for v in servermap.values()):
+        return "empty entries in the reported maps"
+    if ur.get_pushed_shares() != len(placed):
+        return "pushed_shares=%r, %d shares were pushed to completion" % (ur.get_pushed_shares(), len(placed))
+    if ur.get_preexisting_shares() != len(already_ids):
+        return "preexisting_shares=%r, %d share numbers were found pre-existing" % (ur.get_preexisting_shares(), len(already_ids))
+    if ur.get_file_size() != 1000 or ur.get_verifycapstr() != b"URI:CHK-Verifier:x":
+        return "file size / verify cap not passed through"
+    return True
+
+
+def h_done(o0: int, o1: int, o2: int, p0: bool, p1: bool, p2: bool, a0: bool, a1: bool, a2: bool) -> bool:
+    """
+    pre: 0 <= o0 <= B.get("NT", 3) and 0 <= o1 <= B.get("NT", 3) and 0 <= o2 <= B.get("NT", 3)
+    pre: (o0 > 0 or not p0) and (o1 > 0 or not p1) and (o2 > 0 or not p2)
+    post: _ == True
+    """
+    vals = list(range(int(B.get("NT", 3)) + 1))
+    owner = [M.pick(vals, o) for o in (o0, o1, o2)]
+    placed = []
+    for s, p in enumerate((p0, p1, p2)):
+        if p:
+            placed.append(s)
+    already = [True if a else False for a in (a0, a1, a2)]
+    return M.run_concrete(_done_check, owner, placed, already)
